@@ -319,3 +319,10 @@ package main
 //@     invariant forall i int {l.progs[i]} :: 0 <= i && i < old(len(l.progs)) ==> l.progs[i] == old(l.progs[i])
 //@     invariant forall i int {l.progs[i]} :: old(len(l.progs)) <= i && i < len(l.progs) ==> wfProg(l.progs[i])
 //@     decreases _
+
+// The process entry: the environment facts every other contract takes as typing preconditions are assumed
+// here once (the reflect type constants of package goast are what their names say; the runtime passes at least
+// the program name; the standard streams exist).
+//@ func runMain() (exitCode)
+//@   unfold len(global("os.Args")) >= 1 && global("os.Stdout") != nil && global("os.Stderr") != nil
+//@   unfold snapEnvOK() && compileEnvOK()
